@@ -430,11 +430,15 @@ func fetchBatchRules(r *Report, rule string) {
 func pendingNeverExpiresRule(r *Report) {
 	n := 0
 	for _, name := range []string{"rueidis.(*lru).Flight", "rueidis.(*lru).Flights", "rueidis.(*adapter).Flight"} {
-		fn := r.FnAnchor("R09d", name)
-		if fn == nil {
+		fn0 := r.FnAnchor("R09d", name)
+		if fn0 == nil {
 			continue
 		}
-		for _, s := range CallSites(fn, "rueidis.(*RedisMessage).relativePTTL") {
+		var sites []Site
+		for _, f := range WithHelpers(r.P, fn0) { // a lookup may be split into a fast path and a locked slow path
+			sites = append(sites, CallSites(f, "rueidis.(*RedisMessage).relativePTTL")...)
+		}
+		for _, s := range sites {
 			n++
 			ok := false
 			for _, g := range DomGuards(s.Block) {
@@ -758,6 +762,12 @@ func runC09(r *Report) {
 			continue
 		}
 		sets := CallSites(fn, "rueidis.(*adapterEntry).set")
+		// or the helper written out: close(entry.ch) of an adapter entry
+		for _, s := range CallSites(fn, "builtin.close") {
+			if IsFieldLoad(s.Call().Common().Args[0], "rueidis.adapterEntry", "ch") {
+				sets = append(sets, s)
+			}
+		}
 		okOnce := len(sets) == 1
 		cleared := false
 		if okOnce {
